@@ -353,7 +353,7 @@ func c09chan(r *rng.R, n int) {
 				for rep := 0; rep < n; rep++ {
 					p := toyParams{Block: 16, KC: byte(r.Range(1, 255)), KM: uint32(r.U64()), SL: 32, RSL: 32}
 					op := toyParams{Block: 16, KC: byte(r.Range(1, 255)), KM: uint32(r.U64()), SL: 32, RSL: 32}
-					c := c13case{Name: fmt.Sprintf("chan%d", i), Kind: kind, Mode: mode, Opening: opening, OpenP: op, Insts: []toyParams{p}, Cap: 65535, Cert: hx(cert())}
+					c := c13case{Name: fmt.Sprintf("chan%d", i), Kind: kind, Mode: mode, Opening: opening, OpenP: op, Insts: []toyParams{p}, Cap: 65535, Cert: hx(cert()), ECCert: hx(ecCert())}
 					i++
 					body := svcBody(3, r.Bytes(r.Intn(12)))
 					uri := ua.SecurityPolicyURIBasic256Sha256
@@ -371,12 +371,14 @@ func c09chan(r *rng.R, n int) {
 					opnNoneCert, _ := rawOpn(ua.SecurityPolicyURINone, cert(), r.Bytes(20), 1, 1, body)
 					opnReal, _ := rawOpn(uri, cert(), r.Bytes(20), 1, 1, body)
 					opnGarbage, _ := rawOpn("http://x/unknown", r.Bytes(9), nil, 1, 1, body)
+					opnEC, _ := rawOpn(uri, ecCert(), r.Bytes(20), 1, 1, body)
 					opnEmpty, _ := rawOpn("", nil, nil, 1, 1, body)
 					forged := []namedFrame{
 						{opnNone, false, "forged plaintext OPN, policy None"},
 						{opnNoneCert, false, "forged plaintext OPN, policy None, with certificate"},
 						{opnReal, false, "forged plaintext OPN, real policy and certificate"},
 						{opnGarbage, false, "forged OPN, unknown policy"},
+						{opnEC, false, "forged OPN, certificate with a non-RSA key"},
 						{opnEmpty, false, "forged OPN, empty policy"},
 						plainMsg,
 						{symChunk("MSG", 'F', 8, tokID, 9, 6, body), false, "plaintext MSG, other channel id"},
